@@ -10,13 +10,5 @@ CONSTANTS
   Dev_AttachNoEdge = FALSE
   Dev_DscNotForced = TRUE
 INVARIANT TypeOK
-INVARIANT Inv_W0
-INVARIANT Inv_W1
-INVARIANT Inv_W2
-INVARIANT Inv_W3
-INVARIANT Inv_W4
 INVARIANT Inv_Verdict
-INVARIANT Inv_LoopGraph
-INVARIANT Inv_ClosureAgrees
-PROPERTY Terminates
 CHECK_DEADLOCK FALSE
